@@ -3,28 +3,9 @@
 //!
 //! usage: oq3v check <ID> [--tier quick|thorough] [--replay FILE]
 
-mod c11;
-mod c19;
-mod c20;
-mod astabs;
-mod engine;
-mod layout;
-mod model;
-mod modelgen;
-mod semcheck;
-mod semforms;
-mod semgen;
-mod semprops;
-mod fsprops;
-mod synprops;
-mod lexgen;
-mod lexprops;
-mod pipeline;
-mod textgen;
-mod textprops;
-mod typeprops;
 
-use engine::*;
+use oq3_verif_harness::engine::*;
+use oq3_verif_harness::*;
 use serde_json::Value;
 
 fn run_property(id: &str, ctx: &RunCtx) -> bool {
